@@ -88,6 +88,12 @@ fn main() {
                 }
             }
         }
+        "c19-survey" => {
+            marsim::props::c19::survey();
+        }
+        "c19-worker" => {
+            std::process::exit(marsim::props::c19::worker_main(&args[2..]));
+        }
         "replay" => {
             let f = args.get(2).cloned().unwrap_or_else(|| usage());
             std::process::exit(marsim::props::replay_file(Path::new(&f)));
